@@ -70,6 +70,10 @@ func c18Pinning(canonOnly bool) []c18Atom {
 		out = append(out, c18Atom{n: gen.In(K(), gen.Str("")), kind: "in", set: []string{""}})
 		out = append(out, c18Atom{n: gen.In(K(), gen.Str(""), gen.Str("")), kind: "in", set: []string{""}})
 		out = append(out, c18Atom{n: gen.In(K(), gen.Str(""), gen.Str("b")), kind: "in", set: []string{"", "b"}})
+		// an upper bound at the empty literal: nothing but the empty key lies below it
+		out = append(out, c18Atom{n: gen.Bin("<=", K(), gen.Str("")), kind: "le", hi: sp("")})
+		out = append(out, c18Atom{n: gen.Bin("<", K(), gen.Str("")), kind: "le", hi: sp("")})
+		out = append(out, c18Atom{n: gen.Bin(">=", gen.Str(""), K()), kind: "le", hi: sp("")})
 	}
 	return out
 }
